@@ -52,6 +52,12 @@ CHECKS["C12"]=dict(level="exploration", design="DESIGN.md §3 C12", technique="r
 CHECKS["C16"]=dict(level="fault_enumeration", design="DESIGN.md §3 C16", technique="runtime monitoring with fault enumeration: real RemoteWorker + real gRPC (bufconn) + real Tier2Service.ProcessRange; every single transient fault placement per job (refuse / drop with and without server cancel / completion lost), PRNG pairs and triples, real overload path; deterministic module failure at chosen blocks; differential oracle REF-LINEAR + cache audit + error-code monitor",
    text="Every enumerated transient fault placement was absorbed (request completed, outputs == reference, clean cache), and every deterministic module failure ended the request with an error mapped to invalid-argument, after a correct prefix strictly below the failing block and nothing after the error.",
    note="Retry back-off is real time (external library); faults are injected at the gRPC client stream boundary; reference for the failing package comes from its non-failing twin (pure programs).")
+CHECKS["C15"]=dict(level="exploration", design="DESIGN.md §3 C15", technique="runtime monitoring: three-way differential of the two real filter evaluators and an independent evaluator over generated expressions x key assignments (incl. shared-bitmap immutability), plus end-to-end scenarios with index files present / absent / deleted judged by REF-LINEAR, the host-call log and a hand-written filter oracle",
+   text="For every generated accepted expression and key-to-block assignment the bitmap evaluator, the per-block evaluator and an independent evaluator selected the same blocks, repeated evaluation left the shared bitmaps unchanged, negation was rejected; end-to-end, filtered modules produced reference outputs with index files present, absent and deleted, never ran on a rejected block and never missed a matching one.",
+   note="Expression generator renders its own tree, so precedence is judged independently; end-to-end part trusts REF-LINEAR for payloads and a hand-written oracle for the 11 generated filter queries.")
+CHECKS["C17"]=dict(level="exploration", design="DESIGN.md §3 C17", technique="runtime monitoring by structure-aware fuzzing of tier1/tier2 requests through the REAL validation + Tier1Service.blocks / Tier2Service.processRange entry points in child processes, with panic capture, hang watchdog (confirmed by isolated re-run) and live memory guard",
+   text="Every generated malformed or well-formed request was either rejected with an error or accepted, without panic, hang or unbounded allocation, through the real service paths up to (not including) block execution. One recorded known finding (unbounded state matrix when the final block is unknown).",
+   note="No block is delivered (execution itself is covered elsewhere); tier1 back-processing jobs fail immediately; hang verdicts need a reproduced watchdog timeout.")
 NOT_YET = {}
 def main():
     checks=[]
